@@ -12,7 +12,6 @@ PROPS = {
     },
     "C06": {
         "modules": ["Ark.Props.C06"],
-        "claimed": False,
         "crate": "harness2",
         "rule": "one op line per pairing / multi-pairing / Miller loop / final exponentiation / bilinearity test; distinct = distinct op line; non-trivial = non-identity inputs",
         "exhaustive": [],
